@@ -4,9 +4,11 @@ The two `Framer` instances.
 
 * SoupBinTCP (`soupProto`): framing is by the 2-byte length prefix only, so whatever could be cut off (or whatever exception
   `from_bytes` raised on the delimited packet) is the same whatever arrives later — for EVERY byte string (`soupSt` is constantly true).
-* FIX (`fixProtoD known decode`, the reader with the dictionary dispatch): `bytes.find` results, the BodyLength text and the computed
-  frame length are stable under appending; the frame `buf[:n]` / the rest `buf[n:]` are stable iff `n ≥ 0` (`fixSt`): a negative
-  `n` counts from the end of whatever has arrived so far.
+* FIX (`fixProtoD known decode`, the reader with the dictionary dispatch), after the repair 658ee1f (a negative BodyLength raises
+  `ValueError`): `bytes.find` results, the BodyLength text and the computed frame length are stable under appending, the length is
+  never negative where a frame is cut, so the frame `buf[:n]` / the rest `buf[n:]` are stable too — for EVERY byte string
+  (`fixSt` is constantly true).  The pre-repair reader, whose `buf[:n]` with `n < 0` counted from the end of whatever had
+  arrived, is kept in `Witness/C04Bytes.lean`.
 -/
 namespace NasdaqModel.Refine
 open NasdaqModel Py Framing
@@ -162,14 +164,11 @@ theorem pySlice_append_nat (b more : Bytes) (i j : Nat) (hi : i ≤ b.length) (h
 theorem fixDeser_of_parts {buf : Bytes} {i start end_ : Nat} {n : Int}
     (h35 : find buf tag35 0 = some i) (hEq : find buf [EQ] 2 = some start) (hS : find buf [SOH] start = some end_)
     (hp : parseIntBytes (pySlice buf ((start : Int) + 1) end_) = .ok n) :
-    fixDeser buf = (if (buf.length : Int) < ((end_ : Int) + 1) + n + 7 then .ok none
-      else .ok (some (pySliceTo buf (((end_ : Int) + 1) + n + 7), pySliceFrom buf (((end_ : Int) + 1) + n + 7)))) ∧
-    fixFrameLen buf = some (((end_ : Int) + 1) + n + 7) := by
-  constructor
-  · unfold fixDeser
-    simp only [h35, hEq, hS, hp, ok_bind, pure_eq_ok]
-  · unfold fixFrameLen
-    simp only [h35, hEq, hS, hp]
+    fixDeser buf = (if n < 0 then .error .value
+      else if (buf.length : Int) < ((end_ : Int) + 1) + n + 7 then .ok none
+      else .ok (some (pySliceTo buf (((end_ : Int) + 1) + n + 7), pySliceFrom buf (((end_ : Int) + 1) + n + 7)))) := by
+  unfold fixDeser
+  simp only [h35, hEq, hS, hp, ok_bind, pure_eq_ok]
 
 /-- the same `find`s / BodyLength text after more bytes have arrived -/
 theorem fix_parts_append {buf : Bytes} {i start end_ : Nat} (more : Bytes)
@@ -185,37 +184,11 @@ theorem fix_parts_append {buf : Bytes} {i start end_ : Nat} (more : Bytes)
   rw [e]
   exact pySlice_append_nat buf more (start + 1) end_ (by omega) (by omega)
 
-theorem fixFrameLen_append {buf : Bytes} {l : Int} (more : Bytes) (h : fixFrameLen buf = some l) :
-    fixFrameLen (buf ++ more) = some l := by
-  unfold fixFrameLen at h
-  cases h35 : find buf tag35 0 with
-  | none => simp only [h35] at h; cases h
-  | some i =>
-    simp only [h35] at h
-    cases hEq : find buf [EQ] 2 with
-    | none => simp only [hEq] at h; cases h
-    | some start =>
-      simp only [hEq] at h
-      cases hS : find buf [SOH] start with
-      | none => simp only [hS] at h; cases h
-      | some end_ =>
-        simp only [hS] at h
-        cases hp : parseIntBytes (pySlice buf ((start : Int) + 1) end_) with
-        | error e => rw [hp] at h; cases h
-        | ok n =>
-          rw [hp] at h
-          obtain ⟨a1, a2, a3, a4⟩ := fix_parts_append more h35 hEq hS
-          have := (fixDeser_of_parts a1 a2 a3 (by rw [a4]; exact hp)).2
-          rw [this]; exact h
-
-theorem fixSt_prefix {buf more : Bytes} (h : fixSt (buf ++ more) = true) : fixSt buf = true := by
-  unfold fixSt at h ⊢
-  cases hl : fixFrameLen buf with
-  | none => rfl
-  | some l => rw [fixFrameLen_append more hl] at h; exact h
-
-theorem fixDeser_mono {buf f r : Bytes} (more : Bytes) (hst : fixSt buf = true) (h : fixDeser buf = .ok (some (f, r))) :
-    fixDeser (buf ++ more) = .ok (some (f, r ++ more)) := by
+/-- what a cut frame looks like: a non-negative BodyLength `n`, the frame is the first `end+1+n+7 ≥ 8` bytes -/
+theorem fixDeser_some_inv {buf f r : Bytes} (h : fixDeser buf = .ok (some (f, r))) :
+    ∃ (i start end_ : Nat) (n k : Nat), find buf tag35 0 = some i ∧ find buf [EQ] 2 = some start ∧
+      find buf [SOH] start = some end_ ∧ parseIntBytes (pySlice buf ((start : Int) + 1) end_) = .ok (n : Int) ∧
+      k = end_ + 1 + n + 7 ∧ k ≤ buf.length ∧ f = buf.take k ∧ r = buf.drop k := by
   cases h35 : find buf tag35 0 with
   | none => unfold fixDeser at h; simp only [h35] at h; cases h
   | some i =>
@@ -228,27 +201,42 @@ theorem fixDeser_mono {buf f r : Bytes} (more : Bytes) (hst : fixSt buf = true) 
         cases hp : parseIntBytes (pySlice buf ((start : Int) + 1) end_) with
         | error e => unfold fixDeser at h; simp only [h35, hEq, hS, hp, err_bind] at h; cases h
         | ok n =>
-          obtain ⟨hd, hl⟩ := fixDeser_of_parts h35 hEq hS hp
-          obtain ⟨a1, a2, a3, a4⟩ := fix_parts_append more h35 hEq hS
-          obtain ⟨hd', _⟩ := fixDeser_of_parts a1 a2 a3 (by rw [a4]; exact hp)
-          have hnn : 0 ≤ ((end_ : Int) + 1) + n + 7 := by
-            unfold fixSt at hst
-            rw [hl] at hst
-            simpa using hst
-          generalize ((end_ : Int) + 1) + n + 7 = l at hd hd' hnn
-          rw [hd] at h
+          rw [fixDeser_of_parts h35 hEq hS hp] at h
           split at h
           · cases h
-          · rename_i hlen
-            obtain ⟨k, rfl⟩ := Int.eq_ofNat_of_zero_le hnn
-            have hk : k ≤ buf.length := by omega
-            simp only [Except.ok.injEq, Option.some.injEq, Prod.mk.injEq] at h
-            obtain ⟨hf, hr⟩ := h
-            rw [hd', if_neg (by rw [List.length_append]; omega)]
-            simp only [pySliceTo, pySliceFrom] at hf hr ⊢
-            rw [normIdx_nat _ _ hk] at hf hr
-            rw [normIdx_nat _ _ (by rw [List.length_append]; omega), List.take_append_of_le_length hk,
-              List.drop_append_of_le_length hk, hf, hr]
+          · rename_i hn
+            split at h
+            · cases h
+            · rename_i hlen
+              obtain ⟨n', rfl⟩ := Int.eq_ofNat_of_zero_le (by omega : 0 ≤ n)
+              have e : ((end_ : Int) + 1) + (n' : Int) + 7 = ((end_ + 1 + n' + 7 : Nat) : Int) := by omega
+              rw [e] at h hlen
+              have hk : end_ + 1 + n' + 7 ≤ buf.length := by omega
+              simp only [Except.ok.injEq, Option.some.injEq, Prod.mk.injEq, pySliceTo, pySliceFrom] at h
+              rw [normIdx_nat _ _ hk] at h
+              exact ⟨i, start, end_, n', _, rfl, rfl, hS, hp, rfl, hk, h.1.symm, h.2.symm⟩
+
+/-- **a frame the FIX reader cuts is never empty** (it has at least the 8 bytes `…␁` + 7 trailer bytes): no dictionary needed -/
+theorem fixDeser_consumes {buf f r : Bytes} (h : fixDeser buf = .ok (some (f, r))) : f ≠ [] ∧ r.length < buf.length := by
+  obtain ⟨_, _, end_, n, k, _, _, _, _, hk, hle, hf, hr⟩ := fixDeser_some_inv h
+  subst hf; subst hr
+  constructor
+  · intro h0
+    have := congrArg List.length h0
+    simp only [List.length_take, List.length_nil] at this
+    omega
+  · simp only [List.length_drop]; omega
+
+theorem fixDeser_mono {buf f r : Bytes} (more : Bytes) (h : fixDeser buf = .ok (some (f, r))) :
+    fixDeser (buf ++ more) = .ok (some (f, r ++ more)) := by
+  obtain ⟨i, start, end_, n, k, h35, hEq, hS, hp, hk, hle, hf, hr⟩ := fixDeser_some_inv h
+  obtain ⟨a1, a2, a3, a4⟩ := fix_parts_append more h35 hEq hS
+  rw [fixDeser_of_parts a1 a2 a3 (by rw [a4]; exact hp)]
+  have e : ((end_ : Int) + 1) + (n : Int) + 7 = ((k : Nat) : Int) := by omega
+  rw [if_neg (by omega), e, if_neg (by rw [List.length_append]; omega)]
+  simp only [pySliceTo, pySliceFrom]
+  rw [normIdx_nat _ _ (by rw [List.length_append]; omega), List.take_append_of_le_length hle,
+    List.drop_append_of_le_length hle, hf, hr]
 
 theorem fixDeser_err_mono {buf : Bytes} {e : Err} (more : Bytes) (h : fixDeser buf = .error e) :
     fixDeser (buf ++ more) = .error e := by
@@ -261,13 +249,15 @@ theorem fixDeser_err_mono {buf : Bytes} {e : Err} (more : Bytes) (h : fixDeser b
       cases hS : find buf [SOH] start with
       | none => unfold fixDeser at h; simp only [h35, hEq, hS] at h; cases h
       | some end_ =>
+        obtain ⟨a1, a2, a3, a4⟩ := fix_parts_append more h35 hEq hS
         cases hp : parseIntBytes (pySlice buf ((start : Int) + 1) end_) with
         | ok n =>
-          obtain ⟨hd, _⟩ := fixDeser_of_parts h35 hEq hS hp
-          rw [hd] at h
-          split at h <;> cases h
+          rw [fixDeser_of_parts h35 hEq hS hp] at h
+          rw [fixDeser_of_parts a1 a2 a3 (by rw [a4]; exact hp)]
+          split at h
+          · rename_i hn; rw [if_pos hn]; exact h
+          · split at h <;> cases h
         | error e' =>
-          obtain ⟨a1, a2, a3, a4⟩ := fix_parts_append more h35 hEq hS
           unfold fixDeser at h ⊢
           simp only [h35, hEq, hS, hp, err_bind] at h
           simp only [a1, a2, a3, a4, hp, err_bind]
@@ -297,13 +287,13 @@ theorem fixDeserD_of {known : Bytes → Bool} {decode : Bytes → Except Err Uni
   simp only [h, hk, if_true, hd]
 
 theorem fixDeserD_mono {known : Bytes → Bool} {decode : Bytes → Except Err Unit} {buf f r : Bytes} (more : Bytes)
-    (hst : fixSt buf = true) (h : fixDeserD known decode buf = .ok (some (f, r))) :
+    (h : fixDeserD known decode buf = .ok (some (f, r))) :
     fixDeserD known decode (buf ++ more) = .ok (some (f, r ++ more)) := by
   obtain ⟨h1, h2, u, h3⟩ := fixDeserD_inv h
-  exact fixDeserD_of (fixDeser_mono more hst h1) h2 h3
+  exact fixDeserD_of (fixDeser_mono more h1) h2 h3
 
 theorem fixDeserD_err_mono {known : Bytes → Bool} {decode : Bytes → Except Err Unit} {buf : Bytes} {e : Err} (more : Bytes)
-    (hst : fixSt buf = true) (h : fixDeserD known decode buf = .error e) :
+    (h : fixDeserD known decode buf = .error e) :
     fixDeserD known decode (buf ++ more) = .error e := by
   cases hfd : fixDeser buf with
   | error e' =>
@@ -317,7 +307,7 @@ theorem fixDeserD_err_mono {known : Bytes → Bool} {decode : Bytes → Except E
     | none => unfold fixDeserD at h; simp only [hfd] at h; cases h
     | some fr =>
       obtain ⟨f, r⟩ := fr
-      have := fixDeser_mono more hst hfd
+      have := fixDeser_mono more hfd
       unfold fixDeserD at h ⊢
       simp only [hfd] at h
       simp only [this]
@@ -331,11 +321,28 @@ theorem fixDeserD_err_mono {known : Bytes → Bool} {decode : Bytes → Except E
       · rename_i hk
         rw [if_neg hk]; exact h
 
-theorem fixFramer (known : Bytes → Bool) (decode : Bytes → Except Err Unit) (hk : known [] = false) :
-    Framer (fixProtoD known decode) fixSt where
-  consuming := fixProtoD_consuming known decode hk
-  some_mono := fun more hst h => fixDeserD_mono more hst h
-  err_mono := fun more hst h => ⟨_, fixDeserD_err_mono more hst h⟩
-  st_prefix := fixSt_prefix
+/-- every frame the FIX reader (with or without the dictionary dispatch) takes off the buffer is non-empty — no assumption on
+    the dictionary -/
+theorem fixProtoD_consuming' (known : Bytes → Bool) (decode : Bytes → Except Err Unit) : Consuming (fixProtoD known decode) :=
+  fun _ _ _ h => (fixDeser_consumes (fixDeserD_inv h).1).2
+
+theorem fixProto_consuming : Consuming fixProto := fun _ _ _ h => (fixDeser_consumes h).2
+
+theorem fixFramer (known : Bytes → Bool) (decode : Bytes → Except Err Unit) : Framer (fixProtoD known decode) fixSt where
+  consuming := fixProtoD_consuming' known decode
+  some_mono := fun more _ h => fixDeserD_mono more h
+  err_mono := fun more _ h => ⟨_, fixDeserD_err_mono more h⟩
+  st_prefix := fun _ => rfl
+
+/-- the FIX reader without the dispatch (a frame is its byte slice) is a `Framer` too -/
+theorem fixFramer0 : Framer fixProto fixSt where
+  consuming := fixProto_consuming
+  some_mono := fun more _ h => fixDeser_mono more h
+  err_mono := fun more _ h => ⟨_, fixDeser_err_mono more h⟩
+  st_prefix := fun _ => rfl
+
+/-- every byte string is stable for FIX (after the repair) -/
+theorem fix_stable {μ : Type} (P : Proto μ) (buf : Bytes) : stable P fixSt buf = true :=
+  stable_of_always P fixSt (fun _ => rfl) _ _
 
 end NasdaqModel.Refine
